@@ -30,6 +30,12 @@ def check(ctx: Ctx):
     c07.check_overlaps(ctx)
     col.check_neighbor(ctx)
     col.check_from_random(ctx)
+    from ..rules import support
+
+    support.check_field_types(ctx)
+    support.check_inverse_permutation(ctx)
+    ctx.expect("INVPERM", 1)
+    ctx.expect("LAYOUT", 3)
     ctx.expect("EFFECT", 1)
     ctx.expect("PAIR", 1)
     ctx.expect("GUARDSHAPE", 4)
